@@ -517,27 +517,17 @@ impl PendingEntryList {
         count: usize,
         consumer: Option<&str>
     ) -> Vec<PendingEntry> {
-        let iter: Box<dyn Iterator<Item = &PendingEntry>> = if let Some(consumer_name) = consumer {
-            // Filter by consumer
-            if let Some(consumer_ids) = self.entries_by_consumer.get(consumer_name) {
-                Box::new(
-                    consumer_ids.iter()
-                        .filter_map(|id| self.entries_by_id.get(id))
-                )
-            } else {
-                Box::new(std::iter::empty())
-            }
-        } else {
-            // All entries in range
-            let start = start.unwrap_or(StreamId::min());
-            let end = end.unwrap_or(StreamId::max());
-            
-            Box::new(
-                self.entries_by_id
-                    .range(start..=end)
-                    .map(|(_, entry)| entry)
-            )
-        };
+        // Entries in the id range, in id order; with a consumer given, only that consumer's
+        // (its own index is in delivery order and knows nothing of the range)
+        let start = start.unwrap_or(StreamId::min());
+        let end = end.unwrap_or(StreamId::max());
+        
+        let iter: Box<dyn Iterator<Item = &PendingEntry>> = Box::new(
+            self.entries_by_id
+                .range(start..=end)
+                .map(|(_, entry)| entry)
+                .filter(move |entry| consumer.map(|name| entry.consumer == name).unwrap_or(true))
+        );
         
         iter.take(count).cloned().collect()
     }
